@@ -1,4 +1,4 @@
-import CoapVerif.Lemmas.StreamWsDefs
+import CoapVerif.Lemmas.StreamWsHs
 /- C05, WebSocket part, frame phase: S's `frames` seen one frame at a time, and one call of `coap_ws_read`
    (label next_frame on: `readFrame`) = S on the pending bytes ++ the bytes it consumed. -/
 namespace Coap
@@ -20,7 +20,7 @@ theorem frames_cons2 (mode : Mode) (fuel : Nat) (b0 b1 : UInt8) (r : Bytes) :
       (if hSize b1.toNat r = 0 then rest.1 else deliver (Spec.decode .ws pl) rest.1, rest.2) := by
   rfl
 
-theorem frames_short (mode : Mode) (fuel : Nat) (bs : Bytes) (h : bs.length < 2) : frames mode fuel bs = ([], false) := by
+theorem wsFrames_short (mode : Mode) (fuel : Nat) (bs : Bytes) (h : bs.length < 2) : frames mode fuel bs = ([], false) := by
   cases fuel with
   | zero => rfl
   | succ f =>
@@ -29,7 +29,7 @@ theorem frames_short (mode : Mode) (fuel : Nat) (bs : Bytes) (h : bs.length < 2)
     | [_], _ => rfl
 
 /-- the result of S does not depend on the fuel once it exceeds the length -/
-theorem frames_fuel (mode : Mode) : ∀ (f1 f2 : Nat) (bs : Bytes), bs.length < f1 → bs.length < f2 →
+theorem wsFrames_fuel (mode : Mode) : ∀ (f1 f2 : Nat) (bs : Bytes), bs.length < f1 → bs.length < f2 →
     frames mode f1 bs = frames mode f2 bs := by
   intro f1
   induction f1 with
@@ -52,7 +52,7 @@ def frOf (mode : Mode) (bs : Bytes) : List Msg × Bool := frames mode (bs.length
 theorem frRes_eq (mode : Mode) (bs : Bytes) : frRes mode bs = ⟨(frOf mode bs).1, true, (frOf mode bs).2⟩ := rfl
 
 theorem frOf_short (mode : Mode) (bs : Bytes) (h : bs.length < 2) : frOf mode bs = ([], false) :=
-  frames_short mode _ bs h
+  wsFrames_short mode _ bs h
 
 theorem frOf_cons2 (mode : Mode) (b0 b1 : UInt8) (r : Bytes) :
     frOf mode (b0 :: b1 :: r) =
@@ -70,7 +70,7 @@ theorem frOf_cons2 (mode : Mode) (b0 b1 : UInt8) (r : Bytes) :
   unfold frOf
   rw [frames_cons2]
   simp only [List.length_cons]
-  rw [frames_fuel mode (r.length + 1 + 1) (((r.drop (hExtra b1.toNat)).drop (hSize b1.toNat r)).length + 1) _ (by omega) (by omega)]
+  rw [wsFrames_fuel mode (r.length + 1 + 1) (((r.drop (hExtra b1.toNat)).drop (hSize b1.toNat r)).length + 1) _ (by omega) (by omega)]
 
 /-! ### M: `readFrame` in the vocabulary of StreamWsDefs -/
 
